@@ -83,6 +83,17 @@ def _mk(engine, shape, k, letters, qshape=None, rebind=False, budget=200):
                      models=("rf", "np", "sp", "mp"), setup=_setup(letters if rebind else None))
 
 
+def _probe_scale(engine):
+    def run():
+        import pyrepseq
+        seqs, planted = hc.scale_case()
+        seqs = seqs + ["CASSF", "CASSLF"]          # other lengths in between: never paired in Hamming mode
+        got = getattr(pyrepseq, engine)(list(seqs), max_edits=1, custom_distance="hamming")
+        ok, detail = hc.compare_triplets(got, hc.scale_self_expected(planted))
+        return ok, f"[scale probe] {engine}(custom_distance='hamming') on {len(seqs)} sequences (neighbours planted at positions {sorted(planted.values())}): {detail}"
+    return run
+
+
 def conditions(tier):
     out = []
     mixed = [(2, 1, 2), (1, 2, 2), (2, 2, 1), (1, 2, 1), (2, 1, 1)]
@@ -122,4 +133,7 @@ def conditions(tier):
         out.append(_mk("hash_based", (2, 2, 2), 2, "ACD", rebind=True, budget=2400))
         out.append(_mk("symdel", (3, 2), 2, None, qshape=(3, 3), budget=2400))
         out.append(_mk("kdtree", (2, 1, 2, 1), 1, "ACY", budget=2400))
+    for engine in ("nearest_neighbor", "hash_based", "kdtree"):
+        out.append(hc.probe_condition(f"C07/probe/{engine}/70000-sequences", f"{engine} in Hamming mode, max_edits=1, 70 008 sequences with six planted substitution pairs",
+                                      _probe_scale(engine)))
     return out
